@@ -504,7 +504,7 @@ struct World {
    static bool HasEscapedBackslashBeforeLiveMeta(const std::string & c) { for (size_t i = 0; i + 2 < c.size() + 0; i++) { if (c[i] != '\\') continue; if (c[i + 1] == '\\') { if (i + 2 < c.size() && strchr("*?,([|", c[i + 2])) return true; i++; } else i++; } return false; }
    // a comma list of literal names (direct lookup) one alternative of which holds an escaped backslash: see regress case 10
    static bool HasListAltWithBackslash(const std::vector<Pat> & pats) { for (size_t i = 0; i < pats.size(); i++) if (!pats[i].malformed) for (size_t j = 0; j < pats[i].cl.size(); j++) { const std::string & c = pats[i].cl[j]; if (!IsLitOrList(c) || c.find("\\\\") == std::string::npos) continue; bool esc = false; for (size_t q = 0; q < c.size(); q++) { if (esc) { esc = false; continue; } if (c[q] == '\\') { esc = true; continue; } if (c[q] == ',') return true; } } return false; }
-   static const char * ListBsPrefix(const std::vector<Pat> & pats) { return HasListAltWithBackslash(pats) ? "list_alternative_with_escaped_backslash|" : ""; }
+   static const char * ListBsPrefix(const std::vector<Pat> & pats) { if (HasListAltWithBackslash(pats)) vh::stat("pattern_sets_with_list_alternative_holding_a_backslash"); return ""; }   // F61 (repaired): judged with the ordinary keys
    static void NoteClauses(const std::vector<Pat> & pats) { for (size_t i = 0; i < pats.size(); i++) if (!pats[i].malformed) for (size_t j = 0; j < pats[i].cl.size(); j++) if (HasEscapedBackslashBeforeLiveMeta(pats[i].cl[j])) { vh::stat("clauses_with_escaped_backslash_before_live_metachar"); bool only = true; { const std::string & c = pats[i].cl[j]; bool esc = false; int live = 0; for (size_t q = 0; q < c.size(); q++) { if (esc) { esc = false; continue; } if (c[q] == '\\') { esc = true; continue; } if (strchr("*?([|", c[q])) live++; } only = live <= 1; } if (only) vh::stat("clauses_with_escaped_backslash_before_sole_live_metachar"); } }
    // 0 = no malformed pattern, 1 = malformed but none before a valid one, 2 = a malformed pattern precedes a valid one
    static int MalformedShape(const std::vector<Pat> & pats) { int r = 0; bool seenBad = false; for (size_t i = 0; i < pats.size(); i++) { if (pats[i].malformed) { seenBad = true; if (!r) r = 1; } else if (seenBad) r = 2; } return r; }
@@ -589,7 +589,7 @@ struct World {
          bool anyFast = false, anySlow = false; for (size_t l = 0; l < 8; l++) { bool have = false, fast = true; for (size_t i = 0; i < pats.size(); i++) if (!pats[i].malformed && pats[i].cl.size() > l) { have = true; if (!IsLitOrList(pats[i].cl[l])) fast = false; } if (have) { if (fast) anyFast = true; else anySlow = true; } }
          if (anyFast) vh::stat("msgs_with_a_direct_lookup_level"); if (anySlow) vh::stat("msgs_with_an_iterated_level");
          if (filterMode) vh::stat("msgs_with_filters");
-         NoteClauses(pats); st.listBs = HasListAltWithBackslash(pats);
+         NoteClauses(pats); st.listBs = HasListAltWithBackslash(pats); if (st.listBs) vh::stat("msgs_with_list_alternative_holding_a_backslash");
          { const int ms = MalformedShape(pats); if (ms) { vh::stat("msgs_with_malformed_pattern"); if (ms == 2) vh::stat("msgs_with_malformed_pattern_before_valid"); else if (pats.size() > 1) vh::stat("msgs_with_malformed_pattern_last"); else vh::stat("msgs_with_malformed_pattern_alone"); bool anyExp = false; for (size_t r = 0; r < ss.size(); r++) if (st.expect[r] == 1) anyExp = true; if (ms == 2 && anyExp) vh::stat("msgs_with_malformed_pattern_before_valid_and_receivers"); } }
          bool anyC = false; for (size_t r = 0; r < ss.size(); r++) if (st.consp[r] && st.expect[r] == 0 && (int)r != sender) { vh::stat("conspiracy_candidate_receivers"); anyC = true; } if (anyC) vh::stat("msgs_with_conspiracy_candidate");
       }
@@ -713,10 +713,10 @@ struct World {
             if (cnt[i] > 1) { Fail(std::string("route|duplicate|") + kModes[st.mode], who + vh::fmt(" arrived %d times", cnt[i])); break; }
             if (st.expect[r] == 2) continue;
             if (st.expect[r] == 1) vh::stat("deliveries_expected");
-            if (st.expect[r] == 1 && cnt[i] == 0) Fail(std::string(st.listBs ? "list_alternative_with_escaped_backslash|" : "") + "route|missing|" + kModes[st.mode], who + " did not arrive");
+            if (st.expect[r] == 1 && cnt[i] == 0) Fail(std::string("route|missing|") + kModes[st.mode], who + " did not arrive");
             else if (st.expect[r] == 0 && cnt[i] == 1) {
                const char * why = ((int)r == st.sender && !st.senderSelf) ? "|to_sender_without_reflect_to_self" : (st.consp[r] ? "|conspiracy" : (Rv.kind == 2 ? "|to_nodeless_session" : ""));
-               Fail(std::string(st.listBs ? "list_alternative_with_escaped_backslash|" : "") + "route|unexpected|" + kModes[st.mode] + why, who + " arrived although nothing selects this receiver");
+               Fail(std::string("route|unexpected|") + kModes[st.mode] + why, who + " arrived although nothing selects this receiver");
             }
          }
       }
@@ -1062,13 +1062,15 @@ static void Regress()
    }
    vh::begin_case(10);
    { // a comma list looked up directly: an alternative holding an escaped backslash must find the node named with that backslash
-     // (found on the unchanged tree while adding the C05-7 clauses: DoTraversalAux strips the escapes while splitting the list and DoDirectChildLookup strips them again)
+     // (F61, repaired in 8b6f10a: DoTraversalAux stripped the escapes while splitting the list and DoDirectChildLookup stripped them again; "zz,a\\\\" also reached owners of a node "a")
       Rg r(4, "regress|list_alternative_with_escaped_backslash"); r.Set(1, "b"); r.Set(2, "a\\"); r.Set(3, "zz");
       r.Route("control: unique literal", 0, K("a\\\\"), W4(0, 0, 1, 0));
       r.Route("control: list with a wildcard member (iterated level)", 0, K("a\\\\,z*"), W4(0, 0, 1, 1));
       r.Route("list of two literal names, the first with a backslash", 0, K("a\\\\,b"), W4(0, 1, 1, 0));
       r.Route("list of two literal names, the last with a backslash", 0, K("zz,a\\\\"), W4(0, 0, 1, 1));
-      vh::stat("regress_list_backslash_scenarios", 4);
+      r.Set(3, "a");
+      r.Route("the backslash alternative must not find a node named without it", 0, K("b,a\\\\"), W4(0, 1, 1, 0));
+      vh::stat("regress_list_backslash_scenarios", 5);
    }
    for (uint64_t i = 1; i <= 11; i++) vh::distinct(i);
 }
